@@ -153,6 +153,42 @@ pub fn run(out: &mut Out, rng: &mut Rng, thorough: bool) {
                 )
             });
         }
+        // ---- the same two helpers on small simplices far from the origin (size 1 at distance 1e3 … 1e6; the offsets are
+        //      integers, the stored coordinates are what the oracle sees): the result must come from differences of vertices,
+        //      products of absolute coordinates lose (distance / size)^2 ulps
+        if rep % 5 == 3 {
+            let l = [1e3, 1e4, 1e5, 1e6][rng.below(4) as usize];
+            let o = DVec3::new((rng.range(-8, 8) as f64 + 0.5) * l, (rng.range(-8, 8) as f64 + 0.5) * l, (rng.range(-8, 8) as f64 + 0.5) * l);
+            let v: Vec<DVec3> = (0..4).map(|_| o + rv(rng, 1.0)).collect();
+            let vv = v.clone();
+            rec(out, "tet", "far", format!("{} {} {} {}", v3(v[0]), v3(v[1]), v3(v[2]), v3(v[3])), move || {
+                let v = vv;
+                format!(
+                    "{} {} {} {} {}",
+                    fx(signed_volume_tet(v[0], v[1], v[2], v[3])),
+                    fx(signed_volume_tet(v[1], v[0], v[2], v[3])),
+                    fx(signed_volume_tet(v[0], v[2], v[1], v[3])),
+                    fx(signed_volume_tet(v[2], v[1], v[0], v[3])),
+                    fx(signed_volume_tet(v[0], v[1], v[3], v[2]))
+                )
+            });
+            let n = (v[1] - v[0]).cross(v[2] - v[0]);
+            let t = v[3];
+            let side = (t - v[0]).dot(n);
+            let t_same = t + n * (if side >= 0. { 1.0 } else { -1.0 }) * (0.5 + rng.f64());
+            let t_other = if n.length_squared() > 0. { t - 2. * (t - v[0]).project_onto(n) } else { t };
+            let vv = v.clone();
+            rec(out, "tri", "far", format!("{} {} {} {} {} {}", v3(v[0]), v3(v[1]), v3(v[2]), v3(t), v3(t_same), v3(t_other)), move || {
+                let v = vv;
+                format!(
+                    "{} {} {} {}",
+                    fx(signed_area_tri(v[0], v[1], v[2], t)),
+                    fx(signed_area_tri(v[1], v[0], v[2], t)),
+                    fx(signed_area_tri(v[0], v[1], v[2], t_same)),
+                    fx(signed_area_tri(v[0], v[1], v[2], t_other))
+                )
+            });
+        }
         // ---- spheres through 2, 3, 4 points
         {
             let (a, b) = (vec(rng, structured, s), vec(rng, structured, s));
